@@ -62,12 +62,12 @@ std::vector<PropSpec> const& props()
             "checkpoint objects (from runs, assembled through public constructors with corner values, empty with user state) serialised, destroyed and rebuilt, compared field by field and bit by bit; in run / reload / rollback histories the text of the live object is read back after every operation; non-trivial = a restart happened; distinct = distinct plan shape hashes"},
         {"C06", {{"poison", 85}, {"mpi", 15}}, 24000, 960000, "exploration",
             "paired runs: non-finite values injected at seeded calls vs. the same calls returning zero; non-trivial = at least one injected non-finite evaluation fired; distinct = distinct plan shape hashes"},
-        {"C07", {{"grid", 70}, {"history", 15}, {"restart", 15}}, 18000, 720000, "exploration",
+        {"C07", {{"grid", 62}, {"history", 14}, {"restart", 12}, {"rollback", 12}}, 18000, 720000, "exploration",
             "VEGAS runs with long refinement histories plus direct probes (u == 1, hand made data); invariants on every grid and point, equal-share bracket against a long double reference; non-trivial = every grid plan; distinct = distinct plan shape hashes"},
         {"C08", {{"weights", 50}, {"history", 18}, {"mpi", 12}, {"restart", 10}, {"rollback", 10}}, 60000, 2400000, "exploration",
             "multi-channel runs with up to 40 refinements plus direct probes of the refinement; probability-vector invariants and reference model; distinct = distinct plan shape hashes"},
-        {"C09", {{"select", 70}, {"history", 30}}, 14000, 560000, "exploration",
-            "selector draws forced to 0, largest-below-1, every cumulative boundary and neighbours, mid points, in a seeded order and repeatedly; inside runs (each selection compared with a fresh selector given the same number) and on the selector type directly; distinct = distinct plan shape hashes"},
+        {"C09", {{"select", 70}, {"history", 30}}, 60000, 2400000, "exploration",
+            "selector draws forced to 0, largest-below-1, every cumulative boundary and neighbours, mid points, in a seeded order and repeatedly; inside runs (each selection compared with a fresh selector given the same number) and on the selector type directly; under standard engines a boundary placed 64 eps above / below a number the engine really produces; distinct = distinct plan shape hashes"},
         {"C10", {{"usage", 28}, {"history", 42}, {"poison", 18}, {"mpi", 12}}, 60000, 2400000, "exploration",
             "draw counter per call under all engines and faults, stored generator vs. discard, engines with odd ranges against the predictor, under the MPI shim every process must leave the run calls x cost further in its stream; distinct = distinct plan shape hashes"},
         {"C11", {{"bins", 60}, {"restart", 12}, {"mpi", 13}, {"poison", 15}}, 40000, 1600000, "exploration",
@@ -103,16 +103,16 @@ std::vector<std::string> expected_reach(std::string const& id)
         {"C06", {"fault:integrand-nonfinite", "volume-run-with-non-finite-evaluations"}},
         {"C07", {"zero-information-iteration", "u-equals-one", "share-checked", "refine-direct", "canonical-zero"}},
         {"C08", {"zero-information-iteration", "floor-hit", "refine-direct"}},
-        {"C09", {"canonical-zero", "boundary-values-forced", "selector-lattice", "subnormal-weight-total"}},
+        {"C09", {"canonical-zero", "boundary-values-forced", "selector-lattice", "subnormal-weight-total", "boundary-next-to-an-engine-output"}},
         {"C10", {"power-of-two-range", "fault:integrand-nonfinite", "fault:rng-force"}},
-        {"C11", {"bins-checked", "coordinate-on-edge", "coordinate-outside"}},
+        {"C11", {"bins-checked", "coordinate-on-edge", "coordinate-outside", "checkpoint-copy-assigned-over-another"}},
         {"C12", {"user-stop", "zero-integrand", "constant-integrand", "target-reached", "target-not-reached", "non-monotone-errors", "resumed-with-results", "target-equals-an-error-exactly", "resumed-checkpoint-already-meets-target"}},
-        {"C15", {"rollback", "rollback-noop", "rollback-to-zero", "rollback-too-large", "rollback-after-reload", "reload"}},
+        {"C15", {"rollback", "rollback-noop", "rollback-to-zero", "rollback-too-large", "rollback-after-reload", "reload", "continuation-with-other-calls", "last-iteration-redone-by-hand"}},
         {"C16", {"empty-share", "split-communicator"}},
         {"C17", {"lazy-densities-skipped", "canonical-zero"}},
         {"C18", {"crash-states", "fault:short-write", "fault:eintr", "fault:open-fails", "fault:kill-at-fs-event", "fault:kill-at-call", "fault:descheduled-before-file-system-call", "restart-in-a-non-writing-mode"}},
         {"C19", {"fault:clean-interruption", "fault:restart-before-first-iteration", "empty-share", "adaptation-parameters-changed-between-runs"}},
-        {"C20", {"fault:short-write", "fault:io-error", "fault:cout-fail", "summary-many-channels"}},
+        {"C20", {"fault:short-write", "fault:io-error", "fault:cout-fail", "summary-many-channels", "user-defined-checkpoint-class"}},
     };
     auto it = m.find(id);
     return it == m.end() ? std::vector<std::string>() : it->second;
